@@ -39,6 +39,7 @@ core_sizes[] = {
 	/* basic pointer types (0x8 - 0xf) */
 	pointer_type(MPT_ENUM(TypeNodePtr)),
 	pointer_type(MPT_ENUM(TypeReplyDataPtr)),
+	pointer_type(MPT_ENUM(TypeBufferPtr)),
 	
 	/* basic value types (0x18 - 0x1f) */
 	basic_type(MPT_ENUM(TypeValFmt),    MPT_STRUCT(value_format)),
